@@ -20,4 +20,6 @@ CASES = [
      "edits": [(O, "            self._measurement_deps |= par_regref_deps(q)\n", "")]},
     {"id": "twin-evaluate-elementwise", "expect": "silent",
      "edits": [(O, "        p = par_evaluate(self.p)\n        backend.rotation(p[0], *reg)", "        theta = par_evaluate(self.p[0])\n        backend.rotation(theta, *reg)")]},
+    {"id": "twin-bind-params-lookup-with-sentinel", "expect": "silent",
+     "edits": [("program.py", "            temp = self.free_params.get(k)  # it's a name\n            if temp:", "            temp = self.free_params.get(k, 0)  # it's a name\n            if temp != 0:")]},
 ]
